@@ -19,6 +19,41 @@ NOT_BUILT = ("check not built yet in this round (planned in DESIGN.md section 9)
 NOT_APPLICABLE = {}
 
 CLAIMED = {
+    "C08": {
+        "text": "spec/UMN.tla transcribes handlers/UMN.py as coded (block parser as a state machine over lines, .cap merge, "
+                "MergeLinkFiles with object identity, entrycmp) next to the reading of the manual pinned in DESIGN.md Appendix "
+                "E.1 (wildcards where it is silent); MC_C08 / MC_C08_block enumerate link files (every order of every subset of "
+                "the field lines, value combinations, pairs of blocks, comments, .cap files, extstrip modes, sidecars: 8 k quick "
+                "/ 57 k thorough directories) and check AsDocumented / BlockAsDocumented / Progress. Every enumerated directory "
+                "is written to disk and listed by the real server; TraceC08 judges the lexed menu against the reference "
+                "(HidesOnXorDash, PlusMeansThisServer, AddsWhenNotDotSlash, ExtStripName, OverridesOnlySetFields, Order, "
+                "SidecarBecomesAbstract) and reports any difference from the transcription as drift (0).",
+        "note": "Trusted: TLC; menu lexer and gamma in harness/c08.py; Gopher view only; one link file and one .cap per "
+                "directory; ties/conflicts excluded as the property says. One known finding (a # comment after Path= ends the "
+                "block: UMN bug-compatibility).",
+    },
+    "C09": {
+        "text": "spec/Gophermap.tla transcribes BuckGophermapHandler.prepare as coded next to the reference reading of DESIGN.md "
+                "Appendix E.2; MC_C09 enumerates 37 line shapes alone, in all pairs (quick) and triples (thorough), in "
+                "directories at depth 0-2 and in *.gophermap files, LF/CRLF, and checks AsDocumented. Every gophermap is "
+                "written to disk and fetched in six protocol views (Gopher, Gopher+, HTTP, WAP, Gemini, Spartan); TraceC09 "
+                "judges each lexed view line for line (InfoIffNoTab, TypeAndDescription, SelectorDefaultsToDescription, "
+                "RelativeResolved, SelectorVerbatim, MissingHostPortMeanThisServer, HostPortVerbatim, SameInEveryProtocol).",
+        "note": "Trusted: TLC; the five listing lexers and canonicalisation in harness/c09.py / Gophermap!CanonObs; Gopher+ flag, "
+                "MIME column and file-system attributes not compared (Appendix E.2).",
+    },
+    "C12": {
+        "text": "spec/Dir.tla models the directory pipeline (ListDir in an OS-chosen order, Filter, UMN dot-file diversion, "
+                "SortNames, one ResolveStep per child that can fault, MergeLinks, FinalSort); MC_C12 enumerates directories "
+                "of 1..4 children with no/one/two unservable children at every position (dangling link, FIFO, socket, child "
+                "vanishing at first or second inspection, EACCES on stat/open, names with .. .\\ \\\\, dot-named variants) "
+                "and checks ModelRobust; the pinned-code variant of the model must violate it (vacuity witness). Every case "
+                "is built as a real tree (real links, mkfifo, sockets; stat/open faults injected by substituted os.stat/open "
+                "at the TLC-chosen child and occurrence) and listed through 7 protocol forms; TraceC12 judges "
+                "Robust.Answered / HealthyListed / OnlyVisible.",
+        "note": "Trusted: TLC; harness/c12.py + c12_dirlib.py (lexers, fault injection); the security filter is pinned in the "
+                "model as the forbidden substrings; directory cache off.",
+    },
     "C13": {
         "text": "spec/Render.tla lists 27 echo sites with their context (element text, double-quoted attribute, HTTP header, "
                 "Gopher+ line) and the transformation applied as coded; MC_C13 enumerates every data string up to length 3 "
